@@ -4,6 +4,7 @@ package frugal
 
 import (
 	"io"
+	"reflect"
 
 	"github.com/apache/thrift/lib/go/thrift"
 )
@@ -23,6 +24,15 @@ func verifHook(point string, obj interface{}, id uint64, n int) {
 }
 
 func verifOpID(ctx FContext) uint64 { id, _ := getOpID(ctx); return id }
+
+// verifChanID identifies a generation of the adapter transport by its close
+// signal channel (0 for nil: a close that is not tied to a generation).
+func verifChanID(c chan struct{}) uint64 {
+	if c == nil {
+		return 0
+	}
+	return uint64(reflect.ValueOf(c).Pointer())
+}
 
 // VerifRegistry returns the registry object of a client transport (the obj
 // value passed to VerifHook by registry points), or nil.
